@@ -11,6 +11,12 @@ use crate::Ctx;
 
 /// check one op segment. `strict_first`: no SPI byte may precede the pulse (new / wake_up).
 pub fn check_segment(log: &[Ev], strict_first: bool) -> Vec<(&'static str, String)> {
+    check_segment_pin(log, strict_first, Pin::Rst, &|_| true)
+}
+
+/// same for an arbitrary reset line; `spi_counts(levels)` tells whether an SPI transfer (given the
+/// pin levels sampled with it) reaches a chip behind this reset line
+pub fn check_segment_pin(log: &[Ev], strict_first: bool, rst: Pin, spi_counts: &dyn Fn(u16) -> bool) -> Vec<(&'static str, String)> {
     let mut out = Vec::new();
     let mut saw_high_before_fall = false;
     let mut spi_before = 0u32;
@@ -28,7 +34,7 @@ pub fn check_segment(log: &[Ev], strict_first: bool) -> Vec<(&'static str, Strin
     let mut rst_level: Option<bool> = None;
     for e in log {
         match e {
-            Ev::PinSet { pin: Pin::Rst, level } => {
+            Ev::PinSet { pin, level } if *pin == rst => {
                 rst_level = Some(*level);
                 if *level {
                     match st {
@@ -62,7 +68,7 @@ pub fn check_segment(log: &[Ev], strict_first: bool) -> Vec<(&'static str, Strin
                 St::Settle => settle_ns += ns,
                 _ => {}
             },
-            Ev::Spi { .. } => match st {
+            Ev::Spi { levels, .. } if spi_counts(*levels) => match st {
                 St::Before => spi_before += 1,
                 St::Low => out.push(("spi-while-reset-low", format!("SPI transfer while RST is low (pulse {})", pulses))),
                 St::Settle => {
@@ -166,6 +172,9 @@ pub fn run(ctx: &Ctx) -> Report {
                 }
             }
         }
+    }
+    if ctx.variant == "v3" && ctx.only_panel.as_deref().map(|p| p == "epd12in48b_v2").unwrap_or(true) {
+        crate::props::p12checks::c11(&mut rep);
     }
     rep
 }
